@@ -159,6 +159,7 @@ SET_A = [
     R("s1", "exon", "g1", [[4, 4]], "+", "user"),
     R("s2", "cds", "g1", [[8, 10], [10, 12]], "-", "user", attrs="note=kinase2"),
     R("s1", "gene", "g4", [[9, 12]], None, "user", on_aln=True),
+    R("s1", "cds", "n1", [[1, 11], [3, 4]], "+", "file"),      # nested spans (extent is not last row's end)
 ]
 SET_B = [
     R("s1", "gene", "a", [[0, 1]], "+", "file"),
@@ -646,7 +647,10 @@ POOL = [["s1", "gene", "+", "g1", "note=kinase", [(3, 5)]],
         ["s1", "CDS", "-", "c1", "Parent=g1", [(2, 3), (7, 8)]],
         ["s2", "gene", ".", "g3", "", [(1, 12)]],
         ["s1", "exon", "+", None, "Name=x", [(9, 9)]],
-        ["s1", "CDS", "+", "c2", "Parent=g1", [(1, 2), (4, 5), (10, 12)]]]
+        ["s1", "CDS", "+", "c2", "Parent=g1", [(1, 2), (4, 5), (10, 12)]],
+        # nested / overlapping rows of one feature: the row with the greatest start does not have the greatest end
+        # (added by the reviewer after seeded change C17-s2 took start/stop from the first/last row)
+        ["s1", "CDS", "-", "n1", "", [(1, 12), (3, 4)]]]
 USER = R("s1", "gene", "u1", [[1, 2]], "+", "user", attrs="by hand")
 
 
